@@ -115,9 +115,40 @@ def main_tests(argv):
     return 0 if not bad else 1
 
 
+def main_findings(argv):
+    """Every stored regression trace of a *fixed* finding must reproduce once the fix commit
+    is reverted (scratch copy), and must not reproduce on the current tree."""
+    import json
+
+    data = json.load(open(os.path.join(ROOT, "known_findings.json")))
+    bad = 0
+    for e in data["findings"]:
+        if e["status"] != "fixed":
+            continue
+        tmp = tempfile.mkdtemp(prefix="rvmut-f-")
+        try:
+            dst = os.path.join(tmp, "python")
+            shutil.copytree(SRC, dst, ignore=shutil.ignore_patterns("__pycache__", "*.pyc"))
+            err = apply_edits(dst, [("revert", e["commit"])])
+            for rp in e.get("replays", ()):
+                path = os.path.join(ROOT, rp)
+                cur = subprocess.run([os.path.join(ROOT, "check"), "--replay", path], capture_output=True, text=True)
+                env = dict(os.environ, RV_SRC=dst)
+                old = subprocess.run([os.path.join(ROOT, "check"), "--replay", path], env=env, capture_output=True, text=True)
+                ok = cur.returncode == 0 and old.returncode == 1 and not err
+                print("%-7s %-28s current tree: %s; with %s reverted: %s  %s" % (e["id"], rp, "clean" if cur.returncode == 0 else "REPRODUCES", e["commit"], "reproduces" if old.returncode == 1 else "DOES NOT REPRODUCE", "" if ok else "<<< CHECK"))
+                bad += 0 if ok else 1
+        finally:
+            shutil.rmtree(tmp, ignore_errors=True)
+    print("findings self-check: %d problems" % bad)
+    return 0 if not bad else 1
+
+
 def main(argv):
     if argv and argv[0] == "--tests":
         return main_tests(argv[1:])
+    if argv and argv[0] == "--findings":
+        return main_findings(argv[1:])
     table = load_table()
     tier = "quick"
     if argv and argv[0] in ("quick", "thorough"):
